@@ -22,6 +22,11 @@ pub struct Scenario {
     pub steps: usize,
 }
 
+/// thorough tier only: 4 threads x 3 calls = 369 600 schedules
+pub fn big_scenario() -> Scenario {
+    Scenario { name: "L-4threads-x3", progs: vec![Prog::Hash("Groestl256", 31), Prog::Hash("Groestl512", 32), Prog::Cipher("ChaCha20", 33), Prog::Hash("Skein512", 34)], steps: 3 }
+}
+
 pub fn scenarios() -> Vec<Scenario> {
     vec![
         Scenario { name: "a-3xGroestl256", progs: vec![Prog::Hash("Groestl256", 1), Prog::Hash("Groestl256", 2), Prog::Hash("Groestl256", 3)], steps: 3 },
@@ -212,7 +217,7 @@ pub fn expected(sc: &Scenario) -> Vec<Vec<u8>> {
 /// child: run one schedule. mode "threads": one OS thread per logical thread, baton-scheduled;
 /// mode "single": the same interleaving executed by one OS thread (interleaving of instances).
 pub fn child(scn: &str, schedule: &str, mode: &str) {
-    let sc = scenarios().into_iter().find(|s| s.name == scn).expect("scenario");
+    let sc = scenarios().into_iter().chain(std::iter::once(big_scenario())).find(|s| s.name == scn).expect("scenario");
     let sched: Vec<usize> = schedule.bytes().map(|b| (b - b'0') as usize).collect();
     let n = sc.progs.len();
     let steps = sc.steps;
@@ -333,8 +338,12 @@ pub fn run(tier: &str, config: &str) -> Report {
     let th = tier == "thorough";
     let exe = std::env::current_exe().unwrap();
     let scs = scenarios();
-    let chosen: Vec<&Scenario> = scs.iter().collect();
-    rep.rule = "for each scenario (a: 3 threads Groestl256, b: 3 threads Groestl512, c: Groestl224+Groestl384+ChaCha20+Blake512 x 2 calls, d: Jh256+Skein512+XChaCha20, e: Blake256+Ietf+Groestl256, f: 2xBlake512+Jh512, g: Skein512 with 16/64/32-byte outputs, h: Skein256 and Skein1024 with two output sizes each x 2 calls, i: ChaCha20+ChaCha20+Ietf each ending calls mid-block, j: XChaCha8/12/20 with the same key and nonce, k: ChaCha8/12/20 with the same key and nonce + Blake256 x 2 calls; calls = {new+first update / first keystream request, second update / request, finalize / seek+request}) every interleaving of the threads' calls (multinomial count) is executed in a cold subprocess, once with one OS thread per logical thread under a baton scheduler and once with a single OS thread (interleaving of independent instances); oracle: each thread's outputs equal the reference model (vref) = the solo outputs; thorough replays every schedule twice and requires identical observations".into();
+    let big = big_scenario();
+    let mut chosen: Vec<&Scenario> = scs.iter().collect();
+    if th {
+        chosen.push(&big);
+    }
+    rep.rule = "for each scenario (a: 3 threads Groestl256, b: 3 threads Groestl512, c: Groestl224+Groestl384+ChaCha20+Blake512 x 2 calls, d: Jh256+Skein512+XChaCha20, e: Blake256+Ietf+Groestl256, f: 2xBlake512+Jh512, g: Skein512 with 16/64/32-byte outputs, h: Skein256 and Skein1024 with two output sizes each x 2 calls, i: ChaCha20+ChaCha20+Ietf each ending calls mid-block, j: XChaCha8/12/20 with the same key and nonce, k: ChaCha8/12/20 with the same key and nonce + Blake256 x 2 calls; calls = {new+first update / first keystream request, second update / request, finalize / seek+request}) every interleaving of the threads' calls (multinomial count) is executed in a cold subprocess, once with one OS thread per logical thread under a baton scheduler and once with a single OS thread (interleaving of independent instances); oracle: each thread's outputs equal the reference model (vref) = the solo outputs; thorough adds scenario L (Groestl256+Groestl512+ChaCha20+Skein512 x 3 calls = 369 600 schedules), replays every schedule twice and requires identical observations".into();
     let mut total_sched = 0u64;
     let mut distinct_out = std::collections::HashSet::new();
     let mut per = Vec::new();
